@@ -1,19 +1,21 @@
 /-
   Props/C04.lean — property C04: image operations move voxel data and sampling grid in lock-step.
 
-  OBLIGATIONS: C04_sample_ramp C04_sample_ramp_self C04_crop_offsets_agree C04_pad_offsets_agree
+  OBLIGATIONS: C04_resize_ramp C04_sample_ramp C04_sample_ramp_self C04_crop_offsets_agree C04_pad_offsets_agree
     C04_center_crop_offsets_agree C04_center_pad_offsets_agree C04_roi_offsets_agree
     C04_narrow_offsets_agree C04_conv_offsets_agree C04_shift_keeps_world
 
   The grid half of the index-only operations (new grid = old spacing/direction, origin at old index
   `first`) and the resizing family are C03's theorems; here the data half is shown to use the same
   `first` and size, and sampling is shown to reproduce world-linear images.
-  Partial: resize/resample/downsample/upsample/pyramid ramps are covered by the correspondence and the
-  ramp oracle of harness/props/c04.py, not yet by a theorem (they need C03's `_resize` model and the
-  blur kernels).
+  `C04_resize_ramp` covers `resize`/`reshape` (and with it un-blurred `downsample`/`upsample`/pyramid steps, which
+  call the same `F.interpolate` + `Grid._resize` pair with integral target sizes).
+  Partial: `resample` (sampling path, fractional grid size) and blurred down/upsampling are covered by the
+  correspondence and the ramp oracle of harness/props/c04.py only.
 -/
 import Deepali.Model.ImageOps
 import Deepali.Proofs.Ramp
+import Deepali.Proofs.ResizeRamp
 import Deepali.Proofs.Examples
 import Mathlib.Tactic.Linarith
 import Mathlib.Tactic.Ring
@@ -23,6 +25,38 @@ set_option linter.unusedSectionVars false
 namespace Deepali
 open Matrix
 variable {K : Type} [Field K] [LinearOrder K] [IsStrictOrderedRing K] [FloorRing K] {d : Nat}
+
+/-- un-clamped source index `F.interpolate` assigns to output sample `j` (per axis). -/
+def resizeSrc (ac : Bool) (n m : Fin d → Nat) (j : Fin d → Nat) : Vec d K := fun i =>
+  if ac then ((j i : Nat) : K) * (((n i : Nat) : K) - 1) / (((m i : Nat) : K) - 1)
+  else (((j i : Nat) : K) + 1 / 2) * ((n i : Nat) : K) / ((m i : Nat) : K) - 1 / 2
+
+/-- **resizing a world-linear image returns the same world-linear function on the resized grid**:
+    `ImageBatch.resize` = `F.interpolate(data, size, align_corners)` + `grid.resize(size, align_corners)`.
+    At every output sample whose source index lies in the sample hull `[0, n−1]^d` the interpolated value
+    equals the ramp at the world position the resized grid assigns to that sample — for any oriented
+    anisotropic grid, any sizes ≥ 2 and either `align_corners` (for `True` every output sample qualifies). -/
+theorem C04_resize_ramp (g : Grid d K) (n m : Fin d → Nat) (ac : Bool) (hn : g.HasSize n)
+    (hsz : g.size = fun i => ((n i : Nat) : K)) (hn2 : ∀ i, 2 ≤ n i) (hm2 : ∀ i, 2 ≤ m i) (hne : ∃ i, m i ≠ n i)
+    (a : Vec d K) (b : K) (j : Fin d → Nat)
+    (hin : ∀ i, 0 ≤ resizeSrc (K := K) ac n m j i ∧ resizeSrc (K := K) ac n m j i ≤ ((n i : Nat) : K) - 1) :
+    interpolateLin ac n m (rampImage g a b) j
+      = rampImage (g.resize m (some ac)) a b (fun i => ((j i : Nat) : Int)) := by
+  have hsrc : (fun i => interpolateSrc (α := K) ac (n i) (m i) (j i)) = resizeSrc ac n m j := by
+    funext i
+    have hm : ¬ m i ≤ 1 := by have := hm2 i; omega
+    have h0 := (hin i).1
+    cases ac
+    · simp only [interpolateSrc, resizeSrc, Bool.false_eq_true, if_false, Nat.cast_one, Nat.cast_ofNat, Nat.cast_zero] at h0 ⊢
+      rw [if_neg (not_lt.mpr h0)]
+    · simp only [interpolateSrc, resizeSrc, if_true, hm, if_false, Nat.cast_one]
+  simp only [interpolateLin, hsrc]
+  rw [interpLin_extBorder_inside n _ _ hin, interpLin_rampImage]
+  simp only [rampImage]
+  congr 1
+  have := resize_world_identity g n m ac hn hsz hn2 hm2 hne (fun i => ((j i : Nat) : K))
+  simp only [Int.cast_natCast]
+  rw [this]; rfl
 
 /-- **sampling a world-linear image on any other grid returns the same world-linear function**:
     at every target sample whose source position lies in the source field of view, for any pair of
